@@ -59,6 +59,9 @@ func (c fatCfg) ext4Params() *ext4.Params {
 	feats := []ext4.FeatureOpt{ext4.WithFeatureHasJournal(c.E4Journal), ext4.WithFeatureReservedGDTBlocksForExpansion(false)}
 	if c.E4NoCsum {
 		feats = append(feats, ext4.WithFeatureMetadataChecksums(false), ext4.WithFeatureGDTChecksum(false))
+	} else {
+		// metadata_csum is NOT among the library's default features: it has to be asked for
+		feats = append(feats, ext4.WithFeatureMetadataChecksums(true))
 	}
 	feats = append(feats, ext4FeatTag(c.E4Feat)...)
 	u := uuid.MustParse("01234567-89ab-4cde-8f01-23456789abcd")
